@@ -208,9 +208,11 @@ def run(ck: Checker):
         worklist_rule(ck)
     with ck.soft('C07.NUM (add_sum_pow2_m1 instantiated as it stands)'):
         transpose_rule(ck)
-    n_ts = basis_rules(ck, [SUM], public)
-    ck.need(n_ts >= 2, f'only {n_ts} basis comparisons found in summation.py (5 on the pinned tree)')
-    ck.floor('C07.BASIS-REACH', 10)
+    # the two shape rules about the same clause (typestate of `basis`, reachable gate kinds) know one way of writing the dispatch
+    with ck.soft('C07.BASIS (functions instantiated per basis spelling)'):
+        n_ts = basis_rules(ck, [SUM], public)
+        ck.need(n_ts >= 2, f'only {n_ts} basis comparisons found in summation.py (5 on the pinned tree)')
+        ck.floor('C07.BASIS-REACH', 10)
     R.check_add_only(ck, 'C07.ADD-ONLY', [SUM, R.ARITH + '._utils'])
     R.check_fresh_labels(ck, 'C07.ADD-ONLY', [SUM])
     R.check_fresh_generated(ck, 'C07.ADD-ONLY', [SUM])
@@ -218,8 +220,17 @@ def run(ck: Checker):
     R.check_args(ck, eff, 'C07.ARGS', [SUM, R.ARITH + '._utils'])
     R.check_multiset(ck, 'C07.ARGS', [SUM, R.ARITH + '._utils'])
     ck.floor('C07.ARGS', 30)
-    R.check_endian(ck, 'C07.ENDIAN', [SUM], public, ENDIAN_EXEMPT)
-    ck.floor('C07.ENDIAN', 5)
+    ck.rule('C07.ENDIAN-REL', 'endianness as a relation: for every public generator with a big_endian parameter the big-endian call on operands given most significant bit first returns the reversed result of the little-endian call (both instantiated on equal host circuits, every value of the operand bits)')
+    from .. import num_folds as _nfe
+    _compared = _nfe.fold_endian_rel(ck, 'C07.ENDIAN-REL', [SUM], public, ENDIAN_EXEMPT)
+    ck.floor('C07.ENDIAN-REL', 3)
+    # the shape rule (reverse at entry, convert every return) knows one way of writing it: soft where the relation was instantiated
+    with ck.soft('C07.ENDIAN-REL (both endiannesses instantiated and compared)'):
+        R.check_endian(ck, 'C07.ENDIAN', [SUM], public, ENDIAN_EXEMPT, names=_compared)
+    R.check_endian(ck, 'C07.ENDIAN', [SUM], public, ENDIAN_EXEMPT, but=_compared)
+    ck.rule('C07.BASIS', 'every public function of the summation module that takes `basis`, instantiated with the basis spelled as a string (upper / lower case) and as the enum member for a range of sizes: only gates of the requested basis are created, and the result is still right')
+    num_folds.fold_basis(ck, 'C07.BASIS')
+    ck.floor('C07.BASIS', 4)
     n = R.check_placeholders(ck, 'C07.PLACEHOLDER', [SUM])
     ck.need(n >= 1, f'only {n} placeholder-using functions of summation.py could be analysed (2 on the pinned tree)')
     ck.assume('level bookkeeping, distinct levels, the sum identity of composed circuits and the gate-count bounds are not decided')
